@@ -166,11 +166,13 @@ pub fn apply(bytes: &[u8], nfds: usize, muts: &[RMut], gpu: bool) -> (Vec<u8>, u
         }
     }
     // the header-level expectation is judged on the final bytes (mutators may cancel each other)
-    let junk = muts.iter().any(|m| matches!(m, RMut::Junk(_)));
-    let e = if truncated {
+    // (replaced-by-random-bytes replies are judged like any other final bytes; the stream ends after them, so a
+    //  reply that is not completely there — no full header, or fewer body bytes than it declares — cannot be accepted)
+    //  A lying size field alone stays EITHER (see assumptions), so "fewer than declared" only counts when the
+    //  declared size is the one the correct reply has.
+    let incomplete = b.len() < 12 || (spec::parse_hdr(&b).2 == spec::parse_hdr(bytes).2 && b.len() < 12 + spec::parse_hdr(&b).2 as usize);
+    let e = if truncated || incomplete {
         Expect::MustReject
-    } else if junk || b.len() < 12 {
-        Expect::Either
     } else {
         let (code, flags, size) = spec::parse_hdr(&b);
         let (_, _, osize) = spec::parse_hdr(bytes);
@@ -323,8 +325,10 @@ pub fn run_fe_reply(ctx: &mut Ctx, c: &FeReplyCase) -> Result<(), String> {
         Err(p) => return Err(format!("Frontend::{} panicked on reply {:x?} with {nfds} descriptors: {}", c.op.name(), &bytes[..bytes.len().min(40)], panic_msg(p))),
     };
     // expectation
-    let complete = !truncated && bytes.len() >= 12 && !matches!(c.muts.last(), Some(RMut::Junk(_))) && !c.muts.iter().any(|m| matches!(m, RMut::Junk(_)));
-    let (body_expect, want) = if complete { fe_body_expect(&c.op, &st, &bytes[12..], nfds, &ids) } else { (if truncated { Expect::MustReject } else { Expect::Either }, None) };
+    // the reply is the first message of the delivered bytes: header plus as many body bytes as it declares
+    let declared = if bytes.len() >= 12 { 12 + spec::parse_hdr(&bytes).2 as usize } else { usize::MAX };
+    let complete = !truncated && bytes.len() >= 12;
+    let (body_expect, want) = if complete { fe_body_expect(&c.op, &st, &bytes[12..declared.min(bytes.len())], nfds, &ids) } else { (Expect::MustReject, None) };
     let expect = combine(hdr_expect, body_expect);
     ctx.class(match expect {
         Expect::MustAccept => "fe_must_accept",
@@ -520,6 +524,56 @@ fn fe_call_matches_at(b: &[u8], p: usize, c: &FeCall) -> bool {
     }
 }
 
+/// raw bytes (with `nfds` descriptors attached at a monotone-mapped offset) into the FrontendReqHandler
+pub fn run_br_raw(ctx: &mut Ctx, reply_ack: bool, bytes: &[u8], nfds: usize, fd_at: u16) -> Result<(), String> {
+    let rec = Arc::new(Mutex::new(FeRec::new()));
+    let mut server = FrontendReqHandler::new(rec.clone()).map_err(|e| format!("{e:?}"))?;
+    server.set_reply_ack_flag(reply_ack);
+    let tx = crate::daemon_fx::dup_fd(server.get_tx_raw_fd());
+    let k = (fd_at as usize * bytes.len()) >> 16;
+    if k > 0 {
+        rawpeer::send_all(tx.as_raw_fd(), &bytes[..k], &[]).map_err(|e| e.to_string())?;
+    }
+    if k < bytes.len() {
+        let fds = fresh_fds(nfds, FdKind::Memfd);
+        let raw: Vec<RawFd> = fds.iter().map(|f| f.as_raw_fd()).collect();
+        rawpeer::send_all(tx.as_raw_fd(), &bytes[k..], &raw).map_err(|e| e.to_string())?;
+    }
+    unsafe { libc::shutdown(tx.as_raw_fd(), libc::SHUT_WR) };
+    let max = bytes.len() / 12 + 4;
+    for _ in 0..max {
+        match catch_unwind(AssertUnwindSafe(|| server.handle_request())) {
+            Ok(Ok(_)) => {}
+            Ok(Err(Error::Disconnected)) => break,
+            Ok(Err(_)) => {}
+            Err(p) => return Err(format!("FrontendReqHandler::handle_request panicked on raw bytes: {}", panic_msg(p))),
+        }
+    }
+    let log = rec.lock().map(|g| g.log.clone()).unwrap_or_default();
+    let mut from = 0;
+    for (i, call) in log.iter().enumerate() {
+        let mut found = None;
+        let mut p = from;
+        while p + 12 <= bytes.len() {
+            if fe_call_matches_at(bytes, p, call) {
+                found = Some(p);
+                break;
+            }
+            p += 1;
+        }
+        match found {
+            Some(p) => from = p + 12,
+            None => return Err(format!("front-end handler invocation #{i} {call:?} is not explained by any well-formed request in the raw bytes {:x?}", &bytes[..bytes.len().min(64)])),
+        }
+    }
+    ctx.class("br_raw");
+    ctx.class_n("br_handler_invocations", log.len() as u64);
+    if !log.is_empty() {
+        ctx.nontrivial(&("br_raw", log.len(), bytes.len() / 16));
+    }
+    Ok(())
+}
+
 pub fn run_br_stream(ctx: &mut Ctx, c: &BrStream) -> Result<(), String> {
     let rec = Arc::new(Mutex::new(FeRec::new()));
     let mut server = FrontendReqHandler::new(rec.clone()).map_err(|e| format!("{e:?}"))?;
@@ -601,4 +655,8 @@ pub fn run(ctx: &mut Ctx) {
     let n = ctx.tier.pick(6_000u32, 200_000u32);
     let ss = (any::<bool>(), proptest::collection::vec(br_chunk(), 1..=5)).prop_map(|(reply_ack, chunks)| BrStream { reply_ack, chunks });
     ctx.prop_check("frontend_request_server_streams", n, ss, |ctx, c| run_br_stream(ctx, c));
+
+    // coverage-guided part: the committed libFuzzer corpora (fuzz/corpus/<target>) through the same oracles
+    crate::fuzzing::corpus_check(ctx, "c06_reply");
+    crate::fuzzing::corpus_check(ctx, "c06_bereq");
 }
